@@ -35,7 +35,10 @@ def pred_c16(prog, case, outs, tables):
     bad = []
     for j, (op, o) in enumerate(zip(case["ops"], outs)):
         if o == PANIC or (op["op"] == "iter" and isinstance(o, list) and len(o) > 1 and isinstance(o[1], list) and PANIC in o[1]):
-            bad.append((j, "operation panicked"))
+            cls = "none"
+            if op["op"] == "iter" and op.get("_known") and _collapsed_count(prog, op) < len(SP.enum(prog.t, op["d"])):
+                cls = op["_known"]
+            bad.append((j, "operation panicked", cls))
     return bad
 
 
@@ -247,6 +250,21 @@ def _iter_expect(prog, op):
     return items
 
 
+def _collapsed_count(prog, op):
+    """number of items when all nodes below one failing key prefix are reported by a single error item"""
+    D, tg = op["d"], op["tg"]
+    n, last = 0, None
+    for st, leaf in SP.enum(prog.t, D):
+        fd = SP.fail_depth(st, tg, D) if SP.render(st, tg, D) is None else None
+        if fd is None:
+            n += 1; last = None
+        else:
+            key = tuple(x[0] for x in st[:fd])
+            if key != last:
+                n += 1; last = key
+    return n
+
+
 def _dedup_err(items, tg, prog, op):
     """nodes sharing a failing prefix are reported by one error item"""
     return items
@@ -255,7 +273,20 @@ def _dedup_err(items, tg, prog, op):
 def pred_iter(prog, case, outs, tables, rooted):
     bad = []
     for j, (op, o) in enumerate(zip(case["ops"], outs)):
-        if op["op"] != "iter" or o == PANIC:
+        if op["op"] == "iter" and op.get("_known") and rooted:
+            # ExactSize::len() must be the number of items still to come, before and after every step
+            full = len(SP.enum(prog.t, op["d"]))
+            coll = _collapsed_count(prog, op)
+            cls = op["_known"] if coll < full else "none"
+            if o == PANIC:
+                bad.append((j, "exact-size iteration into a %d byte path panicked (%d nodes, %d items when failing prefixes collapse)" % (op["tg"]["cap"], full, coll), cls))
+            elif isinstance(o, list) and len(o) > 2 and o[0] == 0 and [2] in o[1]:
+                items = [it for it in o[1] if it != [2]]
+                want = [len(items) - i for i in range(len(items) + 1)] + [0, 0]
+                if o[2] != want:
+                    bad.append((j, "ExactSize len() sequence %r, items actually yielded %d (remaining lengths %r)" % (o[2][:8], len(items), want[:8]), cls))
+            continue
+        if op["op"] != "iter" or o == PANIC or op.get("_known"):
             continue
         is_rooted = bool(op.get("root") is not None or "cap" in op["tg"] or op["d"] < prog.maxd or op.get("exact"))
         if is_rooted != rooted:
@@ -542,10 +573,14 @@ def run_gen_prop(chk, prop, profiles=("dev",), trusted=(), assume=(), rule=""):
                     ch_ops += 1
                     distinct.add(json.dumps(op_text(op), sort_keys=True) + str(c["p"]))
             for j, mv in r["mism"].get(i, []):
+                if j < len(c["ops"]) and c["ops"][j].get("_known"):
+                    continue        # dedicated stream: judged by the predicate and matched against known_findings.txt
                 if j < len(c["ops"]) and in_channel(prop, pmap[c["p"]], c["ops"][j], outs[j], mv):
                     mism_in.append((prof, i, j, mv))
-            for j, why in pred(pmap[c["p"]], c, outs, tables):
-                found.append((prof, i, j, why, prg.cls if (prg.only == prop and _by_name(c["ops"][j].get("keys"))) else "none"))
+            for item in pred(pmap[c["p"]], c, outs, tables):
+                j, why = item[0], item[1]
+                cls = item[2] if len(item) > 2 else (prg.cls if (prg.only == prop and _by_name(c["ops"][j].get("keys"))) else "none")
+                found.append((prof, i, j, why, cls))
         if not samples and r["cases"]:
             c = r["cases"][0]
             for j, op in enumerate(c["ops"]):
